@@ -55,7 +55,8 @@ type tctx struct {
 	t      *Target
 	env    map[string]string // local variable -> type
 	consts map[string]ast.Expr
-	funcs  map[string]*Target // translated whole functions by Go name
+	vars   map[string]ast.Expr // package-level variables with an initialiser (key prefixes)
+	funcs  map[string]*Target  // translated whole functions by Go name
 	ftypes map[string][]string
 	used   map[string]bool
 	files  []*ast.File // the package of the target: pure helper functions called from a fragment are translated too
@@ -73,8 +74,14 @@ func goType(t string) string {
 		return "Coins"
 	case "sdk.DecCoins":
 		return "DecCoins"
+	case "[]byte":
+		return "bytes"
 	}
 	return t
+}
+
+func okParam(ty string) bool {
+	return isInt(ty) || ty == "bool" || ty == "Int" || ty == "Dec" || ty == "string" || ty == "bytes"
 }
 
 // translate a pure helper function of the same package on the fly (extract-function refactors keep the tie)
@@ -99,13 +106,13 @@ func (c *tctx) helper(name string) bool {
 			}
 		}()
 		t := &Target{Name: "Aux_" + name, Kind: "func"}
-		h := &tctx{fset: c.fset, t: t, env: map[string]string{}, consts: c.consts, funcs: c.funcs, ftypes: c.ftypes,
+		h := &tctx{fset: c.fset, t: t, env: map[string]string{}, consts: c.consts, vars: c.vars, funcs: c.funcs, ftypes: c.ftypes,
 			used: map[string]bool{}, files: c.files, aux: c.aux, depth: c.depth + 1}
 		var params, sig []string
 		for _, fl := range fd.Type.Params.List {
 			ty := goType(norm(c.fset, fl.Type))
 			for _, nm := range fl.Names {
-				if !isInt(ty) && ty != "bool" && ty != "Int" && ty != "Dec" {
+				if !okParam(ty) {
 					fail("parameter type %s", ty)
 				}
 				h.env[nm.Name] = ty
@@ -152,7 +159,7 @@ func coqType(t string) string {
 		return "list string"
 	case "bool":
 		return "bool"
-	case "string":
+	case "string", "bytes":
 		return "bytes"
 	}
 	return "Z"
@@ -190,7 +197,17 @@ func wrapOf(t string, e string) string {
 	return "(" + e + ")" // untyped constants, Int
 }
 
+func compat(have, want string) bool {
+	if (have == "string" || have == "bytes") && (want == "string" || want == "bytes") {
+		return true
+	}
+	return unify(have, want) == want
+}
+
 func unify(a, b string) string {
+	if (a == "string" || a == "bytes") && (b == "string" || b == "bytes") {
+		return "bytes"
+	}
 	if a == "untyped" {
 		return b
 	}
@@ -239,6 +256,9 @@ func (c *tctx) expr(e ast.Expr) (string, string, string) {
 		if ce, ok := c.consts[x.Name]; ok {
 			return c.expr(ce)
 		}
+		if ve, ok := c.vars[x.Name]; ok {
+			return c.expr(ve)
+		}
 		fail("free identifier %s (declare it as an atom)", x.Name)
 	case *ast.SelectorExpr:
 		switch key {
@@ -276,6 +296,22 @@ func (c *tctx) expr(e ast.Expr) (string, string, string) {
 		return c.binary(x)
 	case *ast.CallExpr:
 		return c.call(x)
+	case *ast.CompositeLit:
+		if norm(c.fset, x.Type) == "[]byte" {
+			var bs []string
+			for _, el := range x.Elts {
+				lit, ok := el.(*ast.BasicLit)
+				if !ok || lit.Kind != token.INT {
+					fail("byte literal %s", norm(c.fset, el))
+				}
+				var v int64
+				if _, err := fmt.Sscanf(lit.Value, "%v", &v); err != nil {
+					fail("byte literal %s", lit.Value)
+				}
+				bs = append(bs, fmt.Sprint(v))
+			}
+			return "[" + strings.Join(bs, "; ") + "]", "bytes", "false"
+		}
 	}
 	fail("expression %s", key)
 	return "", "", ""
@@ -415,6 +451,28 @@ func (c *tctx) args(x *ast.CallExpr, n int) ([]string, []string, string) {
 func (c *tctx) call(x *ast.CallExpr) (string, string, string) {
 	fn := norm(c.fset, x.Fun)
 	switch fn {
+	case "append":
+		if len(x.Args) != 2 || x.Ellipsis == token.NoPos {
+			fail("append outside the subset (only append(a, b...))")
+		}
+		a, ta, pa := c.expr(x.Args[0])
+		b, tb, pb := c.expr(x.Args[1])
+		unify(ta, "bytes")
+		unify(tb, "bytes")
+		return "(" + a + " ++ " + b + ")", "bytes", por(pa, pb)
+	case "[]byte", "string":
+		if len(x.Args) != 1 {
+			fail("conversion arity")
+		}
+		v, t, p := c.expr(x.Args[0])
+		unify(t, "bytes")
+		return v, "bytes", p
+	case "sdk.Uint64ToBigEndian":
+		vs, ts, p := c.args(x, 1)
+		if unify(ts[0], "uint64") != "uint64" {
+			fail("Uint64ToBigEndian of %s", ts[0])
+		}
+		return "(be64 " + vs[0] + ")", "bytes", p
 	case "uint64", "int64", "uint32", "int", "(uint64)", "(int64)":
 		if len(x.Args) != 1 {
 			fail("conversion arity")
@@ -493,7 +551,7 @@ func (c *tctx) call(x *ast.CallExpr) (string, string, string) {
 		sig := c.ftypes[short]
 		vs, ts, p := c.args(x, len(sig)-1)
 		for i := range ts {
-			if unify(ts[i], sig[i]) != sig[i] {
+			if !compat(ts[i], sig[i]) {
 				fail("argument %d of %s", i, short)
 			}
 		}
@@ -737,7 +795,7 @@ func (c *tctx) block(stmts []ast.Stmt, results []string) (string, string) {
 				continue
 			}
 			v, t, pr := c.expr(r)
-			if unify(t, results[i]) != results[i] {
+			if !compat(t, results[i]) {
 				fail("return type %s for %s", t, results[i])
 			}
 			vs, p = append(vs, v), por(p, pr)
@@ -945,7 +1003,7 @@ func (c *tctx) assignedValue(x *ast.AssignStmt, idx int) (string, string, string
 		}
 		vs, ts, p := c.args(call, len(sig)-1)
 		for i := range ts {
-			if unify(ts[i], sig[i]) != sig[i] {
+			if !compat(ts[i], sig[i]) {
 				fail("argument %d of %s", i, fn)
 			}
 		}
@@ -1411,6 +1469,7 @@ func main() {
 	fset := token.NewFileSet()
 	pkgs := map[string][]*ast.File{}
 	consts := map[string]map[string]ast.Expr{}
+	pvars := map[string]map[string]ast.Expr{}
 	load := func(dir string) []*ast.File {
 		if fs, ok := pkgs[dir]; ok {
 			return fs
@@ -1418,6 +1477,7 @@ func main() {
 		ents, _ := os.ReadDir(filepath.Join(*repo, dir))
 		var fs []*ast.File
 		cs := map[string]ast.Expr{}
+		vs2 := map[string]ast.Expr{}
 		for _, e := range ents {
 			n := e.Name()
 			if !strings.HasSuffix(n, ".go") || strings.HasSuffix(n, "_test.go") || strings.Contains(n, ".pb.") {
@@ -1430,6 +1490,16 @@ func main() {
 			fs = append(fs, f)
 			for _, d := range f.Decls {
 				gd, ok := d.(*ast.GenDecl)
+				if ok && gd.Tok == token.VAR {
+					for _, sp := range gd.Specs {
+						vs := sp.(*ast.ValueSpec)
+						for i, nm := range vs.Names {
+							if i < len(vs.Values) {
+								vs2[nm.Name] = vs.Values[i]
+							}
+						}
+					}
+				}
 				if !ok || gd.Tok != token.CONST {
 					continue
 				}
@@ -1447,14 +1517,14 @@ func main() {
 				}
 			}
 		}
-		pkgs[dir], consts[dir] = fs, cs
+		pkgs[dir], consts[dir], pvars[dir] = fs, cs, vs2
 		return fs
 	}
 	funcs := map[string]*Target{}
 	ftypes := map[string][]string{}
 	var sb strings.Builder
 	sb.WriteString("(* GENERATED by /verif/translator (go2coq) from the current source of settlus/chain. Do not edit. *)\n")
-	sb.WriteString("From Coq Require Import String.\nFrom Settlus Require Import Base.Prelude Base.Dec.\nFrom Settlus Require Import Base.GoSem.\nOpen Scope Z_scope.\nOpen Scope bool_scope.\n\n")
+	sb.WriteString("From Coq Require Import String.\nFrom Settlus Require Import Base.Prelude Base.Dec.\nFrom Settlus Require Import Base.GoSem Base.Hex Base.Keys.\nOpen Scope Z_scope.\nOpen Scope bool_scope.\n\n")
 	okN, failN := 0, 0
 	var names []string
 	for i := range targets {
@@ -1497,7 +1567,7 @@ func main() {
 				fail("function %s not found in %s", t.Func, t.File)
 			}
 			var aux []string
-			c := &tctx{fset: fset, t: t, env: map[string]string{}, consts: cs, funcs: funcs, ftypes: ftypes, used: map[string]bool{}, files: files, aux: &aux}
+			c := &tctx{fset: fset, t: t, env: map[string]string{}, consts: cs, vars: pvars[dir], funcs: funcs, ftypes: ftypes, used: map[string]bool{}, files: files, aux: &aux}
 			var params []string
 			var value, typ, panics string
 			if t.Kind == "func" {
@@ -1505,7 +1575,7 @@ func main() {
 				for _, fl := range fd.Type.Params.List {
 					ty := goType(norm(fset, fl.Type))
 					for _, nm := range fl.Names {
-						if !isInt(ty) && ty != "bool" && ty != "Int" && ty != "Dec" {
+						if !okParam(ty) {
 							fail("parameter %s of type %s", nm.Name, ty)
 						}
 						c.env[nm.Name] = ty
@@ -1521,7 +1591,7 @@ func main() {
 							n = 1
 						}
 						for j := 0; j < n; j++ {
-							results = append(results, norm(fset, fl.Type))
+							results = append(results, goType(norm(fset, fl.Type)))
 						}
 					}
 				}
